@@ -35,4 +35,20 @@ theorem scale_nr_of_entries_to_set_to_bounds (l u n : Int) (h : 0 < l + u) :
   unfold Gen.IsimipFreq.scale_nr_of_entries_to_set_to_bounds scaleCounts
   simp only [roundHalfEven_div _ _ h]
 
+/-- `_get_mask_for_values_beyond_lower_threshold`: `x <= lower_threshold` -/
+theorem get_mask_for_values_beyond_lower_threshold (t : Rat) (x : List Rat) :
+    Gen.IsimipFreq.get_mask_for_values_beyond_lower_threshold t x = maskLower t x := rfl
+
+/-- `_get_mask_for_values_beyond_upper_threshold`: `x >= upper_threshold` -/
+theorem get_mask_for_values_beyond_upper_threshold (t : Rat) (x : List Rat) :
+    Gen.IsimipFreq.get_mask_for_values_beyond_upper_threshold t x = maskUpper t x := rfl
+
+/-- `_get_mask_for_values_between_thresholds`: strictly between -/
+theorem get_mask_for_values_between_thresholds (tl tu : Rat) (x : List Rat) :
+    Gen.IsimipFreq.get_mask_for_values_between_thresholds tl tu x = maskMiddle tl tu x := by
+  unfold Gen.IsimipFreq.get_mask_for_values_between_thresholds maskMiddle
+  induction x with
+  | nil => rfl
+  | cons a t ih => simp only [List.map_cons, List.zipWith_cons_cons, ih]
+
 end Lemmas.GenIsimipFreq
